@@ -68,7 +68,7 @@ def merge_inputs(rng, tier):
 
 def generate(res):
     src = C.read(os.path.join(C.REPO, "src", "tts.rs"))
-    t = G.parse_source(src)
+    t = C.translate(res, "c13", "tag templates of tts.rs", lambda: G.parse_source(src))
     C.write_if_changed(os.path.join(C.GEN, "TtsTabs.v"), G.render(t))
     ok, log = C.build_harness()
     if not ok:
@@ -106,7 +106,7 @@ def generate(res):
         "(%d, %s, %s)" % (e, cstr(s), cstr(o)) for e, s, o, _ in merge_obs if o is not None) + ".\n"
     C.write_if_changed(os.path.join(C.GEN, "C13Obs.v"), body)
     if res is not None:
-        res.extra["gen_sources"] = [{"file": "src/tts.rs", "spans": t["spans"], "sha256": C.sha256_text(src)}]
+        res.extra["gen_sources"] = [{"file": "src/tts.rs", "spans": t["spans"] if t else None, "sha256": C.sha256_text(src)}]
         res.extra["tie_cases"] = {"tag": len(tag_obs), "merge": len(merge_obs)}
     return t, tag_obs, merge_obs
 
@@ -201,6 +201,8 @@ PREF_SETS = [
     {"Bookmark": "true", "CapitalLetters_Pitch": "12.5", "SpeechStyle": "SimpleSpeak", "Verbosity": "Verbose"},
     {"Pitch": "10", "Volume": "80", "Verbosity": "Terse"},
     {"SpeechStyle": "SimpleSpeak", "PauseFactor": "300"},
+    {"CapitalLetters_Pitch": "1"},
+    {"CapitalLetters_Pitch": "-0.5", "MathRate": "101"},
 ]
 CAP_EXPRS = [
     "<mrow><mi>A</mi><mo>+</mo><mi>B</mi><mo>=</mo><mi>C</mi></mrow>",
@@ -210,7 +212,13 @@ CAP_EXPRS = [
 ]
 
 
-def speech_oracle(res, rng):
+PREF_OF_CMD = {"pitch": ["CapitalLetters_Pitch", "Pitch"], "rate": ["MathRate", "Rate"], "volume": ["Volume"], "pause": ["PauseFactor"]}
+
+
+def speech_oracle(res, rng, extra_prefs=()):
+    for p in extra_prefs:
+        if p not in PREF_SETS:
+            PREF_SETS.append(p)
     bodies = list(X.FIXED) + CAP_EXPRS
     n = 12 if res.tier == "quick" else 150
     bodies += [X.gen(rng, 3) for _ in range(n)]
@@ -293,7 +301,16 @@ def run(res):
                         res.violation("merge_pauses turns well-formed %s markup into ill-formed markup: %s" % (eng, err),
                                       {"kind": "merge", "engine": eng, "input": s, "observed": o, "why": err})
                         n += 1
-        n += speech_oracle(res, rng)
+        # the tag templates that no longer agree name an engine command and a value: speak with preferences that
+        # make the rules issue exactly that command with that value
+        extra = []
+        if m:
+            for i in [int(x.replace("%N", "")) for x in m[0].replace("\n", " ").split(";") if x.strip()][:6]:
+                if i < len(tag_obs):
+                    e, c, v = tag_obs[i][5]
+                    for name in PREF_OF_CMD.get(c, []):
+                        extra.append({name: v})
+        n += speech_oracle(res, rng, extra)
         return n > 0
     proved = C.check_proofs(res, "C13", ["Props/C13.vo", "Tie/C13Tie.vo"], "Props/C13.v", search=on_broken)
     if proved:
